@@ -373,3 +373,13 @@ def r7_run_local_state(ctx):
 
 
 RULES = [r1_verdicts, r2_propagate, r3_entry_invariant, r4_discharge, r5_stabilised, r6_sides, r7_run_local_state]
+
+
+def r8_unmodelled_results(ctx):
+    ctx.rule("C02.r8", "a domain that does not model regions still forgets the integer / Boolean variable DEFINED by ref_load and "
+             "ref_to_int (otherwise the checker proves assertions about a loaded value from the variable's stale value)", floor=20)
+    from . import _domains as dm
+    dm.lhs_kill_rule(ctx, "C02.r8", only={"ref_load", "ref_to_int"})
+
+
+RULES += [r8_unmodelled_results]
